@@ -8,6 +8,7 @@ import (
 	"fmt"
 	"sort"
 	"strings"
+	"sync/atomic"
 	"testing"
 
 	"vf/ev"
@@ -231,6 +232,144 @@ func TestVerifC18(t *testing.T) {
 			hs = append(hs, h)
 		}
 		c18Check(run, table, hs, 20, 1)
+	}
+	// tables built the way the binary builds them: YAML `route:` blocks (several dests
+	// per entry, wildcards at any position) through the configuration loader
+	nyaml := ev.Pick(150, 3000)
+	for i := 0; i < nyaml && run.Violations() <= 10; i++ {
+		nent := 1 + g.R.Intn(4)
+		var y strings.Builder
+		y.WriteString("proxies:\n- name: x\n  route:\n")
+		seen := map[string]bool{}
+		var flat []string
+		type ent struct {
+			proto, nh string
+			dests     []string
+		}
+		var ents []ent
+		for e := 0; e < nent; e++ {
+			en := ent{proto: []string{"udp", "tcp", "tls"}[g.R.Intn(3)], nh: fmt.Sprintf("nh%d.verif.test:%d", e, 6000+e)}
+			for k := 1 + g.R.Intn(4); k > 0; k-- {
+				pool := append(append([]string{}, patterns...), ties...)
+				d := pool[g.R.Intn(len(pool))]
+				if !seen[d] {
+					seen[d] = true
+					en.dests = append(en.dests, d)
+					flat = append(flat, d)
+				}
+			}
+			if len(en.dests) == 0 {
+				continue
+			}
+			ents = append(ents, en)
+			y.WriteString("  - dests:\n")
+			for _, d := range en.dests {
+				fmt.Fprintf(&y, "    - '%s'\n", d)
+			}
+			fmt.Fprintf(&y, "    protocol: %s\n    nexthop: %s\n", en.proto, en.nh)
+		}
+		if len(flat) == 0 {
+			continue
+		}
+		cfg, err := loadConfigFromReader(strings.NewReader(y.String()))
+		if err != nil || len(cfg.Proxies) != 1 {
+			run.Violation("generated YAML not loaded", map[string]any{"yaml": y.String(), "error": fmt.Sprint(err)})
+			continue
+		}
+		pcr := createPreConfigRoute(cfg.Proxies[0])
+		owner := map[string]string{} // "proto host port" -> entry index
+		destOf := map[string]int{}
+		for ei, en := range ents {
+			hp := strings.SplitN(en.nh, ":", 2)
+			owner[fmt.Sprintf("%s %s %s", en.proto, hp[0], hp[1])] = fmt.Sprint(ei)
+			for _, d := range en.dests {
+				destOf[d] = ei
+			}
+		}
+		// entries were numbered by position among the non-empty ones
+		for _, h := range hosts {
+			allowed := c18Allowed(flat, h)
+			okEntries := map[string]bool{}
+			for d := range allowed {
+				if d == "" {
+					okEntries[""] = true
+				} else {
+					okEntries[fmt.Sprint(destOf[d])] = true
+				}
+			}
+			first := "\x00"
+			for k := 0; k < 20; k++ {
+				proto, host, port, err := pcr.FindRoute(h)
+				ans := ""
+				if err == nil {
+					ans = owner[fmt.Sprintf("%s %s %d", proto, host, port)]
+					if ans == "" {
+						ans = "?"
+					}
+				}
+				// the entry index in `owner` counts non-empty entries in order, which is how ents was built
+				if !okEntries[ans] {
+					run.Violation("table loaded from YAML: lookup answered outside the reference's allowed set", map[string]any{"yaml": y.String(), "host": h, "answered_entry": ans, "allowed_patterns": fmt.Sprint(allowed)})
+					break
+				}
+				if first == "\x00" {
+					first = ans
+				} else if ans != first {
+					run.Violation("table loaded from YAML: unstable answer", map[string]any{"yaml": y.String(), "host": h})
+					break
+				}
+			}
+			run.EvalN(fmt.Sprintf("yaml|%d|%s", i, h), 20)
+		}
+		if run.WantSample() && nent > 1 {
+			run.Sample(map[string]any{"yaml_route_table": y.String()})
+		}
+	}
+	// concurrent lookups on one table (the listeners of a service share it): same answers
+	{
+		table := []string{"*.b.c", "a.b.*", "*.example.com", "example.com", "default", "a.*.c"}
+		pcr := NewPreConfigRoute()
+		ident := map[string]string{}
+		for j, p := range table {
+			pcr.AddRouteItem("udp", p, fmt.Sprintf("nh%d.verif.test:%d", j, 6000+j))
+			ident[fmt.Sprintf("nh%d.verif.test %d", j, 6000+j)] = p
+		}
+		want := map[string]string{}
+		for _, h := range hosts {
+			_, host, port, err := pcr.FindRoute(h)
+			if err == nil {
+				want[h] = ident[fmt.Sprintf("%s %d", host, port)]
+			}
+		}
+		var bad int32
+		var firstBad atomic.Value
+		per := ev.Pick(4000, 60000)
+		vfWorkers(8, func(w int) {
+			for k := 0; k < per && atomic.LoadInt32(&bad) == 0; k++ {
+				h := hosts[(k+w)%len(hosts)]
+				got := ""
+				var err error
+				var host string
+				var port int
+				if p := vfRecover("FindRoute", func() { _, host, port, err = pcr.FindRoute(h) }); p != "" {
+					atomic.StoreInt32(&bad, 1)
+					firstBad.Store(p)
+					return
+				}
+				if err == nil {
+					got = ident[fmt.Sprintf("%s %d", host, port)]
+				}
+				if got != want[h] {
+					atomic.StoreInt32(&bad, 1)
+					firstBad.Store(fmt.Sprintf("host %s: %q under concurrent lookups, %q alone", h, got, want[h]))
+					return
+				}
+			}
+		})
+		run.EvalN("concurrent-lookups", int64(8*per))
+		if atomic.LoadInt32(&bad) != 0 {
+			run.Violation("the answer for a host changes when several listeners look it up at the same time", map[string]any{"table": table, "first": firstBad.Load()})
+		}
 	}
 	// next-hop strings
 	nh := 0
